@@ -22,11 +22,19 @@ from harness.oracle import EPS, dense
 import teneva
 
 LEVEL = "exploration"
-RULE = ("Hypothesis draws per-dimension boxes (symmetric / offset ~1 / offset up to kappa~1e3, widths 1e-3..1e3, list / "
-        "ndarray / scalar spelling, a/b=None variants), grid sizes n_k 2..9(17), d 2..4 (TT) and 1..3 (dense), Chebyshev "
-        "coefficient cores of TT-rank 1..3 with O(2^s) magnitudes and optional degree deficiency, evaluation points "
-        "inside / on the boundary / on grid nodes / outside (by 1 ulp .. 10 widths), new grid sizes, fill values incl. "
-        "nan/inf, differentiation orders 1..3(4), custom bases (Chebyshev/Legendre/monomial/func_basis at jittered nodes). "
+RULE = ("Hypothesis draws per-dimension boxes (symmetric / offset ~1 / offset up to kappa~1e3, widths 1e-3..1e3, integer bounds "
+        "symmetric or not; a and b spelled independently as float / Python-int / np.float64 scalars, float / int / mixed lists, "
+        "float64 / float32 / int64 / int32 arrays - integer spellings only for integer-valued bounds; a/b=None variants), "
+        "grid sizes n_k 2..9(17), d 2..4 (TT) and 1..3 (dense), Chebyshev coefficient cores of TT-rank 1..3 with O(2^s) "
+        "magnitudes and optional degree deficiency, evaluation points inside / on the boundary / on grid nodes / outside "
+        "(by 1 ulp .. 10 widths) / integer points inside and outside integer boxes, the point array as float ndarray, list, "
+        "int64 / int32 / float32 ndarray or list of ints (integer-valued points only; ndarrays only for the dense routine), "
+        "new grid sizes (None / int / float / list / int64 / int32 array), fill values incl. nan/inf spelled as float, "
+        "np.float64, np.float32 (representable values), Python int / np.int64 / np.int32 (integer values) or omitted (0), "
+        "differentiation-matrix call histories for one process (single call, orders 1..m increasing, m..1 decreasing, free "
+        "sequences interleaving another box of the same size and the same box with another size, bounds respelled per call, "
+        "returned matrices optionally overwritten by the caller), integer-dtype value / coefficient cores for integer data, "
+        "custom bases (Chebyshev/Legendre/monomial/func_basis at jittered nodes). "
         "Oracle = numpy.polynomial.chebyshev reference of the generating polynomial with a derived rounding bound. "
         "Non-trivial = TT-rank >= 2 or a non-symmetric box or a new grid size != n (tt/dense), rank >= 2 or two different "
         "operands (linear), n >= 3 (diff), rank >= 2 or per-core nodes or a non-Chebyshev basis (general); distinct by SHA-1.")
@@ -39,7 +47,13 @@ TOLERANCES = ("values: |got-ref| <= [32(d+sum r) + sum_k n_k^2 (8 kappa_k + 48)]
 ASSUMPTIONS = ["mode sizes n_k >= 2 and new grid sizes m_k >= 2 (a one-node Chebyshev grid is undefined)",
                "d >= 2 for the TT routines, d >= 1 for the dense ones",
                "box offset ratio kappa = max(|a|,|b|)/(b-a) <= 2e3, widths 6e-4..4e3",
-               "non-symmetric boxes have ||b|-|a|| >= 0.25 (b-a)/2 >> 1e-16 (func_sum_full's absolute symmetry threshold)",
+               "non-symmetric boxes have ||b|-|a|| >= 0.25 (b-a)/2 (or >= 1 for integer bounds) >> 1e-16 (func_sum_full's absolute symmetry threshold)",
+               "scalar bounds are Python float / int or np.float64 (a float subclass): other NumPy scalars (np.int64, np.float32) and 0-d "
+               "arrays are outside the documented 'float, list, np.ndarray' and are rejected by grid_prep_opts consumers with a TypeError / "
+               "IndexError on the pinned tree - not generated; the same holds for an np.int64 scalar as the new grid size m",
+               "an argument spelling (int vs float, list vs array, dtype) that denotes the same real numbers must give the same values up "
+               "to rounding: integer spellings are generated only for integer-valued data of magnitude < 2^20, float32 only for exactly representable values",
+               "func_get_full documents X as np.ndarray (lists are not generated for it); func_get accepts lists",
                "'outside' = beyond a bound by >= 1 ulp of a non-zero bound or by >= 1e-6 (b-a); membership decided by float comparison",
                "with skip_out=False (explicit, or defaulted because a/b is None) nothing is asserted about outside points",
                "custom bases follow the library-wide convention basis(x) -> [functions, points]; square systems with cond <= 1e4",
@@ -140,12 +154,92 @@ def exact_t(x, a, b):
     return float((2 * fx - fa - fb) / (fb - fa))
 
 
+def is_int_valued(vals):
+    return all(math.isfinite(float(v)) and float(v).is_integer() and abs(float(v)) < 2 ** 20 for v in vals)
+
+
+# spellings of the bounds a / b.  The documented types are "float, list, np.ndarray" (Python int scalars are handled
+# explicitly by grid_prep_opt and are the library's own defaults a=-1, b=1).  Integer spellings are used only for
+# integer-valued bounds, so that every spelling denotes exactly the same real numbers.
+INT_HOWS = {"int_scalar": "scalar", "int_list": "list", "mixed_list": "list", "int_array": "array", "int32_array": "array", "f32_array": "array"}
+HOWS_ANY = ["list", "list", "array", "array"]
+HOWS_ANY_UNIFORM = ["scalar", "scalar", "np_float64"]
+HOWS_INT = ["int_list", "int_array", "int32_array", "mixed_list", "f32_array"]
+HOWS_INT_UNIFORM = ["int_scalar", "int_scalar"]
+
+
+def eff_how(vals, how):
+    """The drawn spelling, or its float fallback when the bounds are not integer-valued (keeps shrunk cases in-domain)."""
+    if how in INT_HOWS and not is_int_valued(vals):
+        return INT_HOWS[how]
+    if how in ("scalar", "np_float64", "int_scalar") and len(set(float(v) for v in vals)) != 1:
+        return "list"
+    return how
+
+
 def spell(vals, how):
+    how = eff_how(vals, how)
     if how == "scalar":
         return float(vals[0])
+    if how == "np_float64":
+        return np.float64(vals[0])
+    if how == "int_scalar":
+        return int(vals[0])
     if how == "array":
         return np.array(vals, dtype=float)
+    if how == "int_array":
+        return np.array([int(v) for v in vals], dtype=np.int64)
+    if how == "int32_array":
+        return np.array([int(v) for v in vals], dtype=np.int32)
+    if how == "f32_array":
+        return np.array(vals, dtype=np.float32)
+    if how == "int_list":
+        return [int(v) for v in vals]
+    if how == "mixed_list":
+        return [int(v) if k % 2 == 0 else float(v) for k, v in enumerate(vals)]
     return [float(v) for v in vals]
+
+
+def spell_x(X, how):
+    """Point array (2-D or 1-D) in the drawn spelling; integer spellings only for integer-valued points."""
+    X = np.asarray(X, dtype=float)
+    if how in ("int_array", "int32_array", "f32_array", "int_list") and not is_int_valued(X.ravel().tolist()):
+        how = "list" if how == "int_list" else "array"
+    if how == "list":
+        return X.tolist(), how
+    if how == "int_list":
+        return X.astype(np.int64).tolist(), how
+    if how == "int_array":
+        return X.astype(np.int64), how
+    if how == "int32_array":
+        return X.astype(np.int32), how
+    if how == "f32_array":
+        return X.astype(np.float32), how
+    return X.copy(), "array"
+
+
+def spell_z(z, how):
+    """Fill value in the drawn spelling: (positional args tuple, effective spelling)."""
+    z = float(z)
+    if how in ("int", "np_int64", "np_int32") and not is_int_valued([z]):
+        how = "float"
+    if how == "np_float32" and not (z != z or float(np.float32(z)) == z):
+        how = "float"
+    if how == "default" and not z == 0.0:
+        how = "float"
+    if how == "default":
+        return (), how                      # z omitted: the documented default 0.
+    if how == "int":
+        return (int(z),), how
+    if how == "np_int64":
+        return (np.int64(int(z)),), how
+    if how == "np_int32":
+        return (np.int32(int(z)),), how
+    if how == "np_float64":
+        return (np.float64(z),), how
+    if how == "np_float32":
+        return (np.float32(z),), how
+    return (z,), "float"
 
 
 def make_x(code, a, b, nk):
@@ -161,6 +255,12 @@ def make_x(code, a, b, nk):
     elif kind == "node":
         i = int(code[1]) % nk
         x = math.cos(math.pi * i / (nk - 1)) * w / 2 + (b + a) / 2
+    elif kind == "int":                      # a + j, j integer: an integer point when the bound is an integer
+        x = a + float(int(code[1]) % (int(math.floor(w)) + 1))
+    elif kind == "int_out_lo":
+        return a - float(int(code[1]))
+    elif kind == "int_out_hi":
+        return b + float(int(code[1]))
     elif kind == "out_lo":
         return a - float(code[1]) * w
     elif kind == "out_hi":
@@ -189,8 +289,12 @@ def m_spell(m, how):
         return None
     if how == "int":
         return int(m[0])
+    if how == "float":                       # "It may be also int/float" (func_gets, func_gets_full)
+        return float(m[0])
     if how == "array":
         return np.array(m, dtype=int)
+    if how == "int32_array":
+        return np.array(m, dtype=np.int32)
     return [int(v) for v in m]
 
 
@@ -201,13 +305,25 @@ nice = st.sampled_from([1.0, 0.5, 2.0, math.pi, 1.0 / 3.0])
 
 @st.composite
 def box1(draw, force=None):
-    cls = force or draw(st.sampled_from(["sym", "sym", "off1", "off1", "big"]))
+    cls = force or draw(st.sampled_from(["sym", "sym", "off1", "off1", "big", "isym", "int"]))
+    if cls == "isym":                          # integer bounds (any int / float spelling denotes the same box)
+        h = draw(st.integers(1, 6))
+        return {"cls": cls, "a": -float(h), "b": float(h)}
+    if cls == "int":
+        lo = draw(st.integers(-8, 6))
+        hi = lo + draw(st.integers(1, 9))
+        if lo == -hi:
+            hi += 1
+        return {"cls": cls, "a": float(lo), "b": float(hi)}
     h = draw(st.one_of(nice, gen.reals(0.5, 2.0))) * 10.0 ** draw(st.integers(-3, 3))
     if cls == "sym":
         return {"cls": cls, "a": -h, "b": h}
     u = draw(gen.reals(0.25, 3.0)) if cls == "off1" else draw(gen.reals(100.0, 1900.0))
     c = draw(st.sampled_from([-1.0, 1.0])) * u * h
     return {"cls": cls, "a": c - h, "b": c + h}
+
+
+SYM_CLS = ("sym", "isym")
 
 
 @st.composite
@@ -217,13 +333,22 @@ def boxes(draw, d, mode="given"):
         bs = [{"cls": "sym", "a": -1.0, "b": 1.0}] * d
         uniform = True
     else:
-        bs = [draw(box1())] * d if uniform else [draw(box1()) for _ in range(d)]
+        if draw(st.integers(0, 3)) == 0:       # all bounds integers: integer spellings of a / b / X become available
+            f = st.sampled_from(["isym", "int", "int"])
+            bs = [draw(box1(force=draw(f)))] * d if uniform else [draw(box1(force=draw(f))) for _ in range(d)]
+        else:
+            bs = [draw(box1())] * d if uniform else [draw(box1()) for _ in range(d)]
         if mode == "a_none":       # lower bound is the library default -1, upper bound drawn
             bs = [{"cls": "off1", "a": -1.0, "b": -1.0 + (x["b"] - x["a"])} for x in bs]
         elif mode == "b_none":
             bs = [{"cls": "off1", "a": 1.0 - (x["b"] - x["a"]), "b": 1.0} for x in bs]
-    how = draw(st.sampled_from(["list", "array"] + (["scalar"] * 2 if uniform else [])))
-    return {"a": [x["a"] for x in bs], "b": [x["b"] for x in bs], "cls": [x["cls"] for x in bs], "how": how}
+    a, b = [x["a"] for x in bs], [x["b"] for x in bs]
+    pool = HOWS_ANY + (HOWS_ANY_UNIFORM if uniform else [])
+    if is_int_valued(a + b):
+        pool = pool[::2] + HOWS_INT * 2 + (HOWS_INT_UNIFORM * 2 if uniform else [])
+    how = draw(st.sampled_from(pool))
+    how_b = draw(st.sampled_from(pool)) if draw(st.integers(0, 2)) == 0 else how
+    return {"a": a, "b": b, "cls": [x["cls"] for x in bs], "how": how, "how_b": how_b, "int": is_int_valued(a + b)}
 
 
 @st.composite
@@ -249,17 +374,31 @@ coord_out = st.one_of(st.tuples(st.sampled_from(["out_lo", "out_hi"]), st.sample
                       st.tuples(st.sampled_from(["ulp_lo", "ulp_hi"])))
 
 
+coord_int_out = st.tuples(st.sampled_from(["int_out_lo", "int_out_hi"]), st.integers(1, 3))
+
+
 @st.composite
-def point_codes(draw, n, m_max=6):
+def point_codes(draw, n, m_max=6, int_box=False):
     d = len(n)
     pts = []
+    all_int = int_box and draw(st.integers(0, 2)) > 0       # integer points only: X may be spelled with an integer dtype
     for _ in range(draw(st.integers(1, m_max))):
-        p = [draw(coord_in(nk)) for nk in n]
+        if all_int:
+            p = [draw(st.tuples(st.just("int"), st.integers(0, 12))) for _ in n]
+        else:
+            p = [draw(coord_in(nk)) for nk in n]
         if draw(st.integers(0, 3)) == 0:
             for _ in range(draw(st.integers(1, 2))):
-                p[draw(st.integers(0, d - 1))] = draw(coord_out)
+                p[draw(st.integers(0, d - 1))] = draw(coord_int_out if all_int else coord_out)
         pts.append(p)
     return pts
+
+
+def x_hows(int_box, lists=True):
+    pool = ["array", "array"] + (["list", "list"] if lists else [])
+    if int_box:
+        pool = pool + ["int_array", "int_array", "int32_array", "f32_array"] + (["int_list", "int_list"] if lists else [])
+    return st.sampled_from(pool)
 
 
 @st.composite
@@ -267,10 +406,10 @@ def new_sizes(draw, n, tier, size_max=None):
     d = len(n)
     size_max = size_max or (4096 if tier == "quick" else 2 ** 15)
     m_max = 10 if tier == "quick" else 20
-    how = draw(st.sampled_from(["none", "int", "list", "array"]))
+    how = draw(st.sampled_from(["none", "int", "list", "array", "float", "int32_array"]))
     if how == "none":
         return {"how": how, "m": list(n)}
-    if how == "int":
+    if how in ("int", "float"):
         m1 = draw(st.integers(2, m_max))
         while m1 ** d > size_max:
             m1 -= 1
@@ -284,6 +423,19 @@ def new_sizes(draw, n, tier, size_max=None):
 fills = st.one_of(st.sampled_from([0.0, 1.0, -2.5, 1e300, float("inf"), float("nan")]), gen.reals(-10, 10))
 
 
+@st.composite
+def fill_specs(draw):
+    """(value, spelling): the fill value is documented as a float; an integer-valued one may be written 0, -3, np.int64(2), ..."""
+    fam = draw(st.sampled_from(["float", "float", "int", "int", "f32", "default"]))
+    if fam == "float":
+        return [draw(fills), draw(st.sampled_from(["float", "float", "np_float64"]))]
+    if fam == "int":
+        return [float(draw(st.integers(-5, 5))), draw(st.sampled_from(["int", "int", "int", "np_int64", "np_int32", "float"]))]
+    if fam == "f32":
+        return [draw(st.sampled_from([0.0, 0.5, 1.0, -2.5, 3.0, float("inf"), float("-inf"), float("nan")])), "np_float32"]
+    return [0.0, "default"]
+
+
 # ------------------------------------------------------------------------------------------- TT routines
 
 @st.composite
@@ -291,8 +443,10 @@ def tt_cases(draw, tier):
     p = draw(polys(tier, 2, 4))
     n = p["n"]
     mode = draw(st.sampled_from(["given"] * 5 + ["none", "a_none", "b_none"]))
-    return {"poly": p, "mode": mode, "box": draw(boxes(len(n), mode)), "pts": draw(point_codes(n)),
-            "x_list": draw(st.booleans()), "z": draw(fills), "skip_out": draw(st.sampled_from([None, None, True, False])),
+    box = draw(boxes(len(n), mode))
+    z, z_how = draw(fill_specs())
+    return {"poly": p, "mode": mode, "box": box, "pts": draw(point_codes(n, int_box=box["int"])),
+            "x_how": draw(x_hows(box["int"])), "z": z, "z_how": z_how, "skip_out": draw(st.sampled_from([None, None, True, False])),
             "m": draw(new_sizes(n, tier)), "I": draw(gen.indices(n, m_max=4))}
 
 
@@ -302,17 +456,20 @@ def prop_tt(case, ctx):
     d = len(n)
     a, b = [float(v) for v in case["box"]["a"]], [float(v) for v in case["box"]["b"]]
     how, mode = case["box"]["how"], case["mode"]
+    how_b = case["box"].get("how_b", how)
     z = float(case["z"])
+    zargs, z_how = spell_z(z, case.get("z_how", "float"))
+    x_how = case.get("x_how", "list" if case.get("x_list") else "array")
     kap = kappa_of(a, b)
     C = coef_cores(p)
     scale = scale_of(C)
     Y = value_cores(C, [cheb_nodes(nk) for nk in n])
     FY = dense(Y)
     mm = case["m"]["m"]
-    sym = all(c == "sym" for c in case["box"]["cls"])
+    sym = all(c in SYM_CLS for c in case["box"]["cls"])
     ctx.label(f"d={d}", "rank>=2" if max(r) >= 2 else "rank1", "box:" + "+".join(sorted(set(case["box"]["cls"]))),
-              "spell:" + how, "mode:" + mode, "m:" + case["m"]["how"], "m!=n" if mm != n else "m==n",
-              "deg_deficient" if any(p["drop"]) else "full_degree")
+              "spell_a:" + eff_how(a, how), "spell_b:" + eff_how(b, how_b), "z:" + z_how, "mode:" + mode, "m:" + case["m"]["how"],
+              "m!=n" if mm != n else "m==n", "deg_deficient" if any(p["drop"]) else "full_degree")
     ctx.nontrivial(max(r) >= 2 or not sym or mm != n)
 
     tol0 = K_val(n, r) * EPS * scale
@@ -338,15 +495,18 @@ def prop_tt(case, ctx):
 
     # evaluation at points
     a_arg = None if mode in ("none", "a_none") else spell(a, how)
-    b_arg = None if mode in ("none", "b_none") else spell(b, how)
+    b_arg = None if mode in ("none", "b_none") else spell(b, how_b)
     skip = case["skip_out"]
     eff_skip = skip if skip is not None else (mode == "given")
     kw = {} if skip is None else {"skip_out": skip}
     tolp = K_val(n, r, kap) * EPS * scale
 
     def check_points(X, inside, what, ref=None):
-        Xarg = X.tolist() if case["x_list"] else X
-        got = ctx.lib(teneva.func_get, Xarg, A, a_arg, b_arg, z, **kw)
+        # every spelling of the same real numbers (int / float scalars, numpy scalars, int / float32 / float64 arrays,
+        # lists) must give the function value inside the box and the fill value outside it
+        Xarg, xh = spell_x(X, x_how)
+        ctx.label("X:" + xh)
+        got = ctx.lib(teneva.func_get, Xarg, A, a_arg, b_arg, *zargs, **kw)
         got = np.asarray(got)
         ctx.check(got.shape == (len(X),), f"{what}: result shape {got.shape} for {len(X)} points")
         if np.any(inside):
@@ -368,8 +528,8 @@ def prop_tt(case, ctx):
     got = check_points(X, inside, "func_get")
 
     # single point spelling: 1-D X, scalar result
-    x0 = X[0].tolist() if case["x_list"] else X[0]
-    one = ctx.lib(teneva.func_get, x0, A, a_arg, b_arg, z, **kw)
+    x0 = spell_x(X[0], x_how)[0]
+    one = ctx.lib(teneva.func_get, x0, A, a_arg, b_arg, *zargs, **kw)
     ctx.check(np.ndim(one) == 0, "func_get(single point) did not return a scalar", got=repr(one))
     if inside[0]:
         close(ctx, one, ref_points(C, scaled_points(X[:1], a, b))[0], tolp, "func_get(single point): inside the box", x=X[0].tolist())
@@ -378,7 +538,7 @@ def prop_tt(case, ctx):
 
     # the library's own grid nodes: index 0 is the upper bound; the interpolant returns the data
     I = np.array(case["I"], dtype=int)
-    Xg = np.asarray(ctx.lib(teneva.ind_to_poi, I, spell(a, how), spell(b, how), np.array(n), 'cheb'), dtype=float)
+    Xg = np.asarray(ctx.lib(teneva.ind_to_poi, I, spell(a, how), spell(b, how_b), np.array(n), 'cheb'), dtype=float)
     ctx.check(Xg.shape == I.shape, "ind_to_poi: shape", got=Xg.shape)
     Xr = np.array([[math.cos(math.pi * i / (nk - 1)) * (bk - ak) / 2 + (bk + ak) / 2 for i, nk, ak, bk in zip(row, n, a, b)] for row in I])
     wid = np.array(b) - np.array(a)
@@ -389,7 +549,7 @@ def prop_tt(case, ctx):
     check_points(Xg, ins_g, "func_get at grid nodes", ref=FY[tuple(I.T)])
 
     # integral over the box (any box)
-    got = ctx.lib(teneva.func_sum, A, spell(a, how), spell(b, how))
+    got = ctx.lib(teneva.func_sum, A, spell(a, how), spell(b, how_b))
     ctx.check(np.ndim(got) == 0, "func_sum: not a scalar", got=repr(got))
     vol = float(np.prod(wid))
     close(ctx, got, ref_integral(C, a, b), tol0 * vol, "func_sum vs analytic integral", a=a, b=b)
@@ -401,8 +561,11 @@ def prop_tt(case, ctx):
 def dense_cases(draw, tier):
     p = draw(polys(tier, 1, 3, size_max=512 if tier == "quick" else 1024))
     n = p["n"]
-    return {"poly": p, "box": draw(boxes(len(n))), "pts": draw(point_codes(n)), "z": draw(fills),
-            "skip_out": draw(st.sampled_from([None, None, True, False])), "m": draw(new_sizes(n, tier, size_max=512 if tier == "quick" else 1024))}
+    box = draw(boxes(len(n)))
+    z, z_how = draw(fill_specs())
+    return {"poly": p, "box": box, "pts": draw(point_codes(n, int_box=box["int"])), "x_how": draw(x_hows(box["int"], lists=False)),
+            "z": z, "z_how": z_how, "skip_out": draw(st.sampled_from([None, None, True, False])),
+            "m": draw(new_sizes(n, tier, size_max=512 if tier == "quick" else 1024))}
 
 
 def prop_dense(case, ctx):
@@ -411,7 +574,9 @@ def prop_dense(case, ctx):
     d = len(n)
     a, b = [float(v) for v in case["box"]["a"]], [float(v) for v in case["box"]["b"]]
     how = case["box"]["how"]
+    how_b = case["box"].get("how_b", how)
     z = float(case["z"])
+    zargs, z_how = spell_z(z, case.get("z_how", "float"))
     kap = kappa_of(a, b)
     C = coef_cores(p)
     scale = scale_of(C)
@@ -419,9 +584,10 @@ def prop_dense(case, ctx):
     FY = np.ascontiguousarray(dense(Y))
     mm = case["m"]["m"]
     m_how = case["m"]["how"]
-    sym = all(c == "sym" for c in case["box"]["cls"])
+    sym = all(c in SYM_CLS for c in case["box"]["cls"])
     ctx.label(f"d={d}", "rank>=2" if max(r) >= 2 else "rank1", "box:" + "+".join(sorted(set(case["box"]["cls"]))),
-              "spell:" + how, "m!=n" if mm != n else "m==n", "all_sym" if sym else "not_all_sym")
+              "spell_a:" + eff_how(a, how), "spell_b:" + eff_how(b, how_b), "z:" + z_how,
+              "m!=n" if mm != n else "m==n", "all_sym" if sym else "not_all_sym")
     ctx.nontrivial(max(r) >= 2 or not sym or mm != n)
     tol0 = K_val(n, r) * EPS * scale
     tolp = K_val(n, r, kap) * EPS * scale
@@ -435,12 +601,14 @@ def prop_dense(case, ctx):
         close(ctx, Ad, dense(At), 2 * tol0, "func_int_full(dense Y) vs dense(func_int(Y))")
 
     # evaluation
-    a_arg, b_arg = spell(a, how), spell(b, how)
+    a_arg, b_arg = spell(a, how), spell(b, how_b)
     skip = case["skip_out"]
     eff_skip = True if skip is None else skip
     kw = {} if skip is None else {"skip_out": skip}
     X, inside = make_points(case["pts"], a, b, n)
-    got = np.asarray(ctx.lib(teneva.func_get_full, X, Ad, a_arg, b_arg, z, **kw))
+    Xarg, xh = spell_x(X, case.get("x_how", "array"))          # func_get_full documents X as np.ndarray: no lists here
+    ctx.label("X:" + xh)
+    got = np.asarray(ctx.lib(teneva.func_get_full, Xarg, Ad, a_arg, b_arg, *zargs, **kw))
     ctx.check(got.shape == (len(X),), "func_get_full: result shape", got=got.shape)
     if np.any(inside):
         ctx.label("has_inside_point")
@@ -452,7 +620,7 @@ def prop_dense(case, ctx):
             ctx.check(same_fill(got[j], z), "func_get_full: a point outside the box did not receive the fill value",
                       x=X[j].tolist(), a=a, b=b, got=float(got[j]), z=z)
     if At is not None and eff_skip:
-        gtt = np.asarray(ctx.lib(teneva.func_get, X, At, a_arg, b_arg, z))
+        gtt = np.asarray(ctx.lib(teneva.func_get, Xarg, At, a_arg, b_arg, *zargs))
         if np.any(inside):
             close(ctx, got[inside], gtt[inside], 2 * tolp, "func_get_full vs func_get")
         for j in np.nonzero(~inside)[0]:
@@ -492,7 +660,8 @@ def linear_cases(draw, tier):
     n = draw(gen.shapes(d_min=2, d_max=5 if big else 4, n_min=2, n_max=17 if big else 9, size_max=2 ** 15 if big else 4096, force_one=False))
     kw = dict(shape=n, r_max=4, families=VAL_FAMS, rank_families=("rank1", "uniform", "ragged"))
     return {"Y1": draw(gen.tt_specs(**kw)), "Y2": draw(gen.tt_specs(**kw)), "c": draw(gen.numbers),
-            "kind": draw(st.sampled_from(["cheb", "cheb", "sin"])), "kind_kw": draw(st.booleans())}
+            "kind": draw(st.sampled_from(["cheb", "cheb", "sin"])), "kind_kw": draw(st.booleans()),
+            "ydt": draw(st.sampled_from(["float", "float", "int64", "int32"]))}
 
 
 def own_add(Y1, Y2, c):
@@ -545,14 +714,20 @@ def prop_linear(case, ctx):
     kind = case["kind"]
     args = (kind,) if not case["kind_kw"] else ()
     kw = {"kind": kind} if case["kind_kw"] else {}
-    ctx.label("kind:" + kind, *gen.spec_labels(case["Y1"]))
+    # integer-valued data may arrive in cores of an integer dtype (same numbers, another spelling)
+    ydt = case.get("ydt", "float")
+    if ydt != "float" and all(is_int_valued(G.ravel().tolist()) for G in Y1):
+        Y1arg = [G.astype(np.int64 if ydt == "int64" else np.int32) for G in Y1]
+    else:
+        ydt, Y1arg = "float", Y1
+    ctx.label("kind:" + kind, "Y1 dtype:" + ydt, *gen.spec_labels(case["Y1"]))
     ctx.nontrivial(max(case["Y1"]["r"]) >= 2 or case["Y1"] != case["Y2"])
     Ys = own_add(Y1, Y2, c)
     rs = [1] + [G.shape[2] for G in Ys]
     K = 32.0 * (d + sum(rs) + 8 * max(n))
     fac = (lambda nk: 2.0 / (nk - 1)) if kind == "cheb" else (lambda nk: 2.0 / (nk + 1))
 
-    A1 = ctx.lib(teneva.func_int, Y1, *args, **kw)
+    A1 = ctx.lib(teneva.func_int, Y1arg, *args, **kw)
     A2 = ctx.lib(teneva.func_int, Y2, *args, **kw)
     As = ctx.lib(teneva.func_int, Ys, *args, **kw)
     for nm, A, Y in (("Y1", A1, Y1), ("Y2", A2, Y2), ("Y1+cY2", As, Ys)):
@@ -575,44 +750,107 @@ def prop_linear(case, ctx):
     ctx.check(why is None, f"func_gets(func_int(Y), {kind}): not a well-formed TT-tensor of the input shape: {why}")
     close(ctx, dense(Z), dense(Y1), 2 * K * EPS * dense(l1_major(Y1, fac2)), f"func_gets(func_int(Y)) vs Y ({kind})")
 
+    # ... and the other way round (square transforms: a left inverse is a right inverse): the cores of Y1 read as
+    # coefficients, sampled on the same grid (|values| <= sum_j |c_j|) and transformed back (factor n * 2/(n-1) <= 4)
+    V = ctx.lib(teneva.func_gets, Y1arg, None, *args, **kw)
+    why = oracle.wellformed(V, n, finite=False)
+    ctx.check(why is None, f"func_gets(C, {kind}): not a well-formed TT-tensor of the input shape: {why}")
+    B = ctx.lib(teneva.func_int, V, *args, **kw)
+    close(ctx, dense(B), dense(Y1), 2 * K * EPS * dense(l1_major(Y1, fac2)), f"func_int(func_gets(C)) vs C ({kind})")
+
 
 # ------------------------------------------------------------------------------------------- differentiation matrices
 
+DIFF_HOWS = ["float", "float", "np_float64", "int"]
+
+
 @st.composite
 def diff_cases(draw, tier):
-    n = draw(st.sampled_from(list(range(2, (9 if tier == "quick" else 17) + 1))))
+    """A call HISTORY in one process: the main grid (a, b, n) asked for orders in increasing / decreasing / free sequence,
+    interleaved with another box of the same size and the same box with another size; every call is checked in full."""
+    n_hi = 9 if tier == "quick" else 17
+    jtop = 3 if tier == "quick" else 4
+    n = draw(st.integers(2, n_hi))
     bx = draw(box1())
-    return {"n": n, "a": bx["a"], "b": bx["b"], "cls": bx["cls"], "jmax": draw(st.integers(1, 3 if tier == "quick" else 4)),
+    jmax = draw(st.integers(1, jtop))
+    pat = draw(st.sampled_from(["single", "single", "inc", "dec", "free", "free"]))
+    if pat == "single":
+        hist = [[jmax, 0]]
+    elif pat in ("inc", "dec"):
+        jmax = max(jmax, 2)
+        hist = [[j, 0] for j in range(1, jmax + 1)]
+        if pat == "dec":
+            hist = hist[::-1]
+    else:
+        hist = draw(st.lists(st.tuples(st.integers(1, jtop), st.sampled_from([0, 0, 0, 1, 2])).map(list), min_size=2, max_size=5))
+    bx2 = draw(box1())
+    return {"n": n, "a": bx["a"], "b": bx["b"], "cls": bx["cls"], "jmax": jmax, "pat": pat, "hist": hist,
+            "hows": [[draw(st.sampled_from(DIFF_HOWS)), draw(st.sampled_from(DIFF_HOWS))] for _ in hist],
+            "m_default": draw(st.booleans()), "scribble": draw(st.booleans()),
+            "a2": bx2["a"], "b2": bx2["b"], "n2": draw(st.integers(2, n_hi)),
             "drop": draw(st.sampled_from([0, 0, 0, 1, 2, 99])), "exp": draw(st.integers(-8, 8)), "seed": draw(gen.seeds)}
 
 
+def spell1(v, how):
+    v = float(v)
+    if how == "int" and is_int_valued([v]):
+        return int(v)
+    if how == "np_float64":
+        return np.float64(v)
+    return v
+
+
 def prop_diff(case, ctx):
-    n, a, b, jmax = int(case["n"]), float(case["a"]), float(case["b"]), int(case["jmax"])
+    n0, a0, b0, jmax = int(case["n"]), float(case["a"]), float(case["b"]), int(case["jmax"])
+    hist = [[int(m), int(g)] for m, g in case.get("hist", [[jmax, 0]])]
+    hows = case.get("hows") or [["float", "float"]] * len(hist)
+    grids = [(a0, b0, n0), (float(case.get("a2", a0)), float(case.get("b2", b0)), n0), (a0, b0, int(case.get("n2", n0)))]
     rng = np.random.default_rng(case["seed"])
-    c = rng.uniform(-1.0, 1.0, size=n)
-    drop = min(int(case["drop"]), n - 1)
-    if drop:
-        c[n - drop:] = 0.0
-    c = c * 2.0 ** case["exp"]
-    S = float(np.abs(c).sum())
-    t = cheb_nodes(n)
-    y = npcheb.chebval(t, c)
-    ctx.label(f"jmax={jmax}", "box:" + case["cls"], "n=2" if n == 2 else ("n<=jmax" if n <= jmax else "n>jmax"))
-    ctx.nontrivial(n >= 3)
-    D = ctx.lib(teneva.func_diff_matrix, a, b, n, jmax)
-    if jmax == 1:
-        ctx.check(isinstance(D, np.ndarray), "func_diff_matrix(m=1) did not return one matrix", got=type(D).__name__)
-        D = [D]
-    else:
-        ctx.check(isinstance(D, list) and len(D) == jmax, "func_diff_matrix(m>1) did not return a list of m matrices", got=repr(type(D)))
-    lam = 2.0 / (b - a)
-    for j in range(1, jmax + 1):
-        Dj = np.asarray(D[j - 1], dtype=float)
-        ctx.check(Dj.shape == (n, n), "func_diff_matrix: matrix shape", j=j, got=Dj.shape)
-        ref = (npcheb.chebval(t, npcheb.chebder(c, j)) if j < n else np.zeros(n)) * lam ** j
-        tol = 64.0 * EPS * float(n) ** (2 * j + 1) * S * lam ** j
-        close(ctx, Dj @ y, ref, tol, f"D_{j} y vs the exact derivative at the nodes", n=n, a=a, b=b)
-        ctx.inner(1)
+    polys_ = []
+    for (a, b, n) in grids:
+        c = rng.uniform(-1.0, 1.0, size=n)
+        drop = min(int(case["drop"]), n - 1)
+        if drop:
+            c[n - drop:] = 0.0
+        polys_.append(c * 2.0 ** case["exp"])
+    seen = {}
+    grows = shrinks = False
+    for m, g in hist:
+        key = grids[g]
+        if key in seen:
+            grows, shrinks = grows or m > max(seen[key]), shrinks or m < max(seen[key])
+        seen.setdefault(key, []).append(m)
+    ctx.label(f"jmax={max(m for m, _ in hist)}", "box:" + case["cls"], "hist:" + case.get("pat", "single"), f"calls={len(hist)}",
+              "n=2" if n0 == 2 else "n>=3", *(["order_grows_on_a_seen_grid"] if grows else []),
+              *(["order_shrinks_on_a_seen_grid"] if shrinks else []), *(["other_grid_interleaved"] if len(seen) > 1 else []))
+    ctx.nontrivial(n0 >= 3)
+    for call, ((m, g), (how_a, how_b)) in enumerate(zip(hist, hows)):
+        a, b, n = grids[g]
+        c = polys_[g]
+        S = float(np.abs(c).sum())
+        t = cheb_nodes(n)
+        y = npcheb.chebval(t, c)
+        margs = () if (m == 1 and case.get("m_default")) else (m,)
+        D = ctx.lib(teneva.func_diff_matrix, spell1(a, how_a), spell1(b, how_b), n, *margs)
+        if m == 1:
+            ctx.check(isinstance(D, np.ndarray), "func_diff_matrix(m=1) did not return one matrix", got=type(D).__name__, call=call)
+            D = [D]
+        else:
+            ctx.check(isinstance(D, list) and len(D) == m, "func_diff_matrix(m>1) did not return a list of m matrices", got=repr(type(D)), call=call)
+        lam = 2.0 / (b - a)
+        for j in range(1, m + 1):
+            Dj = np.asarray(D[j - 1], dtype=float)
+            ctx.check(Dj.shape == (n, n), "func_diff_matrix: matrix shape", j=j, got=Dj.shape, call=call)
+            ref = (npcheb.chebval(t, npcheb.chebder(c, j)) if j < n else np.zeros(n)) * lam ** j
+            tol = 64.0 * EPS * float(n) ** (2 * j + 1) * S * lam ** j
+            close(ctx, Dj @ y, ref, tol, f"D_{j} y vs the exact derivative at the nodes", n=n, a=a, b=b, call=call,
+                  history=[[mm, list(grids[gg])] for mm, gg in hist[:call + 1]])
+            ctx.inner(1)
+        if case.get("scribble"):
+            # the caller owns what was returned: overwriting it must not influence later calls
+            for Dj in D:
+                if isinstance(Dj, np.ndarray) and Dj.flags.writeable:
+                    Dj[...] = np.nan
 
 
 # ------------------------------------------------------------------------------------------- custom bases, least squares
